@@ -31,14 +31,25 @@ func init() {
 			return tuple{iface{}, iface{t: t, v: "config: top level must be a map containg a key called 'version' that contains an integer"}}
 		}
 		kv := map[string]string{}
+		section := ""
 		for _, line := range strings.Split(string(bs), "\n") {
 			line = strings.TrimRight(line, "\r")
 			if strings.TrimSpace(line) == "" || strings.HasPrefix(strings.TrimSpace(line), "#") {
 				continue
 			}
 			k, v, found := strings.Cut(line, ":")
+			if found && strings.HasPrefix(line, "  ") && section == "validity" && !strings.ContainsAny(strings.TrimSpace(k), " \t{}[]") {
+				// one level of nesting, for the validity block only
+				kv["validity."+strings.TrimSpace(k)] = strings.Trim(strings.TrimSpace(v), `"'`)
+				continue
+			}
 			if !found || strings.HasPrefix(line, " ") || strings.ContainsAny(k, " \t{}[]") {
 				return unknown() // not a flat mapping: outside the stub's fragment, treated as "not a gopki file"
+			}
+			section = ""
+			if strings.TrimSpace(k) == "validity" && strings.TrimSpace(v) == "" {
+				section = "validity"
+				continue
 			}
 			kv[strings.TrimSpace(k)] = strings.Trim(strings.TrimSpace(v), `"'`)
 		}
@@ -56,7 +67,20 @@ func init() {
 				tag, _ := reflect.StructTag(st.Tag(k)).Lookup("json")
 				name, _, _ := strings.Cut(tag, ",")
 				sv, present := kv[name]
-				if !present {
+				if !present && name != "validity" {
+					continue
+				}
+				if name == "validity" {
+					if vst, ok := st.Field(k).Type().Underlying().(*types.Struct); ok {
+						vv := v[k].(structure)
+						for j := 0; j < vst.NumFields(); j++ {
+							vtag, _ := reflect.StructTag(vst.Tag(j)).Lookup("json")
+							vname, _, _ := strings.Cut(vtag, ",")
+							if s, present := kv["validity."+vname]; present {
+								vv[j] = s
+							}
+						}
+					}
 					continue
 				}
 				b, isBasic := st.Field(k).Type().Underlying().(*types.Basic)
